@@ -31,6 +31,9 @@ CONSTANTS Entities,        \* signing names
           Presentations,   \* presentation tags
           Starts,          \* initial documents: [obj, pres, sigs (how the empty signature map is written),
                            \*   depth, signs (budgets of this start: actions / signing actions)]
+          ForeignForms,    \* forms, other than a string of unpadded base64, in which the value of an entry
+                           \*   signatures[entity][key ID] may have been left by somebody else (see below)
+          EntityForms,     \* forms, other than an object, in which signatures[entity] as a whole may have been left
           MaxLen,          \* bound on the number of actions of a behaviour
           MaxSigns         \* bound on the number of signing actions of a behaviour
 
@@ -40,7 +43,40 @@ Unsigned == "unsigned"
 \* ed25519 signature of anything, or of the wrong length (written by ForeignSign with this pseudo key)
 Junk     == "junk"
 
-SignOps   == {"Sign", "ForeignSign"}
+(***************************************************************************)
+(* The FORM of an entry.  A signature is written as a JSON string of       *)
+(* unpadded base64 (form B64): that is what the Matrix specification       *)
+(* prescribes and the only thing SignJSON emits.  Entities that do not run *)
+(* this library, and whoever else may edit the `signatures` member, leave  *)
+(* other things in the place of a signature - under their own name, or     *)
+(* under the name of a signer with another key ID (a key ID of another     *)
+(* algorithm, a retired key):                                              *)
+(*   "padded"  base64 WITH '=' padding,                                    *)
+(*   "text"    a string that is not base64 at all (armoured signature of   *)
+(*             another algorithm, "(revoked)", line-wrapped base64),       *)
+(*   "scalar"  a number or a boolean,                                      *)
+(*   "object"  a structured signature value,                               *)
+(*   "list"    an array,                                                   *)
+(*   "blank"   a blanked entry: null or the empty string.                  *)
+(* Such an entry is not a signature under any key (its key is Junk).  What *)
+(* the property says about it is that it does not matter to anybody else:  *)
+(* Verifies reads the one entry it is asked about and nothing else.        *)
+(*                                                                         *)
+(* One level up the same holds for signatures[entity] as a whole: instead  *)
+(* of an object of key ID -> signature somebody may have left a string, a  *)
+(* number, an array or null there.  That is the entry <<entity, Whole>>:   *)
+(* while it is there the entity has no key IDs and no signatures.          *)
+(***************************************************************************)
+B64       == "b64"
+Whole     == "*"
+Forms     == {B64} \cup ForeignForms \cup EntityForms
+\* forms a signer can carry over when it rewrites the signatures member: base64 strings (a blank entry is the
+\* empty byte string)
+Carriable == {B64, "blank"}
+
+SignOps   == {"Sign", "ForeignSign", "ForeignEntry", "ForeignEntity"}
+\* the ones that leave something that is no signature: <<op, entity, key ID or Whole, form>>
+JunkOps   == {"ForeignEntry", "ForeignEntity"}
 TamperOps == {"Mutate", "Insert", "Delete", "NestedEdit"}
 
 (***************************************************************************)
@@ -52,25 +88,40 @@ Proj(o) == [m \in (DOMAIN o) \ {Unsigned} |-> o[m]]
 
 NoSigs == [x \in {} |-> TRUE]
 
-SigEntry(k, o) == [key |-> k, payload |-> Proj(o)]
+SigEntry(k, o, f) == [key |-> k, payload |-> Proj(o), form |-> f]
+
+\* the key and the form of the entry a signing action <<op, entity, key ID, z>> writes: ForeignEntry's fourth
+\* component is the form (its key is Junk), the others' is the key (their form is B64)
+KeyOf(a)  == IF a[1] \in JunkOps THEN Junk ELSE a[4]
+FormOf(a) == IF a[1] \in JunkOps THEN a[4] ELSE B64
+
+\* what writing signatures[e][kid] (or, with kid = Whole, signatures[e]) displaces besides what was in that very
+\* place: a non-object signatures[e] becomes an object / every entry of e goes
+Displaced(s, e, kid) ==
+    IF kid = Whole THEN {x \in DOMAIN s : x[1] = e} ELSE {<<e, Whole>>} \cap DOMAIN s
 
 PutSig(s, e, kid, ent) ==
-    [x \in (DOMAIN s) \cup {<<e, kid>>} |-> IF x = <<e, kid>> THEN ent ELSE s[x]]
+    [x \in ((DOMAIN s) \ Displaced(s, e, kid)) \cup {<<e, kid>>} |-> IF x = <<e, kid>> THEN ent ELSE s[x]]
 
 \* VerifyJSON(e, kid, public key k, document)
 Verifies(o, s, e, kid, k) ==
     /\ <<e, kid>> \in DOMAIN s
+    /\ s[<<e, kid>>].form = B64
     /\ s[<<e, kid>>].key = k
     /\ s[<<e, kid>>].payload = Proj(o)
 
+\* some entry is in a form a signer cannot carry over
+Unreadable(s) == \E x \in DOMAIN s : s[x].form \notin Carriable
+
 \* ListKeyIDs(e, document)
-KeyIDsOf(s, e) == {x[2] : x \in {y \in DOMAIN s : y[1] = e}}
+KeyIDsOf(s, e) == {x[2] : x \in {y \in DOMAIN s : y[1] = e /\ y[2] # Whole}}
 
 Matrix(o, s, E, K, P) == {t \in E \X K \X P : Verifies(o, s, t[1], t[2], t[3])}
 
 \* state-dependent legality of an action (parameter ranges are the business of Next)
-Legal(o, a) ==
+Legal(o, s, a) ==
     CASE a[1] \in SignOps        -> TRUE
+      [] a[1] = "SignRefused"    -> Unreadable(s)
       [] a[1] = "Mutate"         -> a[2] # Unsigned /\ o[a[2]] # Absent /\ a[3] # Absent /\ a[3] # o[a[2]]
       [] a[1] = "NestedEdit"     -> a[2] # Unsigned /\ o[a[2]] # Absent /\ a[3] # Absent /\ a[3] # o[a[2]]
       [] a[1] = "Insert"         -> a[2] # Unsigned /\ o[a[2]] = Absent /\ a[3] # Absent
@@ -86,7 +137,7 @@ ObjAfter(o, a) ==
       [] OTHER                                       -> o
 
 SigsAfter(o, s, a) ==
-    IF a[1] \in SignOps THEN PutSig(s, a[2], a[3], SigEntry(a[4], o)) ELSE s
+    IF a[1] \in SignOps THEN PutSig(s, a[2], a[3], SigEntry(KeyOf(a), o, FormOf(a))) ELSE s
 
 \* SignJSON returns the canonical encoding; an external signer and an editor keep the presentation they were
 \* given; Reserialise picks another one.
@@ -116,13 +167,13 @@ Last     == hist[Len(hist)]
 Do(a) ==
     /\ Len(hist) < MaxLen
     /\ Len(hist) < start.depth
-    /\ Legal(obj, a)
+    /\ Legal(obj, sigs, a)
     /\ obj'  = ObjAfter(obj, a)
     /\ sigs' = SigsAfter(obj, sigs, a)
     /\ pres' = PresAfter(pres, a)
     /\ hist' = Append(hist, a)
     /\ slog' = IF a[1] \in SignOps
-               THEN Append(slog, [e |-> a[2], kid |-> a[3], key |-> a[4], snap |-> Proj(obj),
+               THEN Append(slog, [e |-> a[2], kid |-> a[3], key |-> KeyOf(a), snap |-> Proj(obj),
                                   at |-> Len(hist) + 1, how |-> a[1]])
                ELSE slog
     /\ prev' = [obj |-> obj, sigs |-> sigs, ver |-> Ver]
@@ -136,6 +187,20 @@ Sign(e, kid, k) == CanSign /\ Do(<<"Sign", e, kid, k>>)
 \* --- another entity (another implementation) adds its signature by editing the signatures member;
 \*     with k = Junk what it adds is not a signature under any key of the universe ---
 ForeignSign(e, kid, k) == CanSign /\ Do(<<"ForeignSign", e, kid, k>>)
+
+\* --- somebody leaves, in the place of a signature of entity e with key ID kid, a value of form f that is no
+\*     signature (an entity that writes its signatures differently, a signature of another algorithm, a
+\*     blanked or retired entry).  It replaces whatever was in that place and touches nothing else. ---
+ForeignEntry(e, kid, f) == CanSign /\ Do(<<"ForeignEntry", e, kid, f>>)
+
+\* --- the same one level up: signatures[e] as a whole becomes a value of form f that is no object; whatever e
+\*     had there is gone, nobody else is concerned ---
+ForeignEntity(e, f) == CanSign /\ Do(<<"ForeignEntity", e, Whole, f>>)
+
+\* --- SignJSON declines (returns an error, no document).  It rewrites the whole `signatures` member, so it
+\*     may decline when an entry is there that it cannot carry over; if it signs nevertheless that is the
+\*     action Sign and everything is kept (SignPreserves).  What it may never do is drop or rewrite. ---
+SignRefused(e, kid, k) == Do(<<"SignRefused", e, kid, k>>)
 
 \* --- tampering: single-member changes -------------------------------------
 Mutate(m, v)     == Do(<<"Mutate", m, v, "">>)
@@ -159,6 +224,9 @@ Init ==
 Next ==
     \/ \E e \in Entities, kid \in KeyIDs, k \in Keys : Sign(e, kid, k) \/ ForeignSign(e, kid, k)
     \/ \E e \in Entities, kid \in KeyIDs : ForeignSign(e, kid, Junk)
+    \/ \E e \in Entities, kid \in KeyIDs, f \in ForeignForms : ForeignEntry(e, kid, f)
+    \/ \E e \in Entities, f \in EntityForms : ForeignEntity(e, f)
+    \/ \E e \in Entities, kid \in KeyIDs, k \in Keys : SignRefused(e, kid, k)
     \/ \E m \in PlainMembers, v \in Vals : Mutate(m, v) \/ Insert(m, v)
     \/ \E m \in NestedMembers, v \in NVals : NestedEdit(m, v) \/ Insert(m, v)
     \/ \E m \in PlainMembers \cup NestedMembers : Delete(m)
@@ -171,25 +239,30 @@ Spec == Init /\ [][Next]_vars
 (* The property, over the history variables (hist, slog, prev) only:       *)
 (* none of these formulas mentions payloads.                               *)
 (***************************************************************************)
-\* index in slog of the most recent signing for <<e, kid>>, 0 if none
+\* index in slog of the most recent writing of the place <<e, kid>> (that place itself, or signatures[e] as a
+\* whole), 0 if none
 LastSignIdx(e, kid) ==
-    LET S == {i \in 1..Len(slog) : slog[i].e = e /\ slog[i].kid = kid}
+    LET S == {i \in 1..Len(slog) : slog[i].e = e /\ slog[i].kid \in {kid, Whole}}
     IN IF S = {} THEN 0 ELSE CHOOSE i \in S : \A j \in S : j <= i
 
 TamperedAfter(n) == \E j \in (n + 1)..Len(hist) : hist[j][1] \in TamperOps
 
 \* Completeness: a signature that has not been replaced verifies under the signer's name, key ID and key as long
-\* as only re-serialisations, further signatures and changes of `unsigned` happened since.
+\* as only re-serialisations, further signatures, entries of whatever form in OTHER places of the signatures
+\* member and changes of `unsigned` happened since.  (An entry that is no signature, how \in JunkOps, is not
+\* spoken about.)
 Complete ==
     \A i \in 1..Len(slog) :
         LET g == slog[i] IN
-        (LastSignIdx(g.e, g.kid) = i /\ ~TamperedAfter(g.at)) => Verifies(obj, sigs, g.e, g.kid, g.key)
+        (g.how \notin JunkOps /\ LastSignIdx(g.e, g.kid) = i /\ ~TamperedAfter(g.at))
+            => Verifies(obj, sigs, g.e, g.kid, g.key)
 
 \* ... and, more generally, whenever the signed members are (again) what was signed
 CompleteNet ==
     \A i \in 1..Len(slog) :
         LET g == slog[i] IN
-        (LastSignIdx(g.e, g.kid) = i /\ g.snap = Proj(obj)) => Verifies(obj, sigs, g.e, g.kid, g.key)
+        (g.how \notin JunkOps /\ LastSignIdx(g.e, g.kid) = i /\ g.snap = Proj(obj))
+            => Verifies(obj, sigs, g.e, g.kid, g.key)
 
 \* Soundness: whatever verifies was signed under exactly that name and key ID with exactly that key, and the
 \* signed members are what they were then.
@@ -211,13 +284,36 @@ OneKey == \A t, u \in Ver : (t[1] = u[1] /\ t[2] = u[2]) => t[3] = u[3]
 SignPreserves ==
     (hist # <<>> /\ Last[1] \in SignOps) =>
         /\ obj = prev.obj
-        /\ DOMAIN sigs = (DOMAIN prev.sigs) \cup {<<Last[2], Last[3]>>}
-        /\ \A x \in (DOMAIN prev.sigs) \ {<<Last[2], Last[3]>>} : sigs[x] = prev.sigs[x]
-        /\ Verifies(obj, sigs, Last[2], Last[3], Last[4])
+        /\ DOMAIN sigs = ((DOMAIN prev.sigs) \ Displaced(prev.sigs, Last[2], Last[3])) \cup {<<Last[2], Last[3]>>}
+        /\ \A x \in (DOMAIN sigs) \ {<<Last[2], Last[3]>>} : sigs[x] = prev.sigs[x]
+        /\ IF Last[1] \in JunkOps
+           THEN sigs[<<Last[2], Last[3]>>].form = Last[4] /\ sigs[<<Last[2], Last[3]>>].key = Junk
+           ELSE Verifies(obj, sigs, Last[2], Last[3], Last[4])
 
-\* changes outside the signed projection leave every verification result alone
+\* changes outside the signed projection, and a signing that was declined, leave every verification result alone
 UncoveredFree ==
-    (hist # <<>> /\ Last[1] \in {"EditUnsigned", "Reserialise"}) => (Ver = prev.ver /\ sigs = prev.sigs)
+    (hist # <<>> /\ Last[1] \in {"EditUnsigned", "Reserialise", "SignRefused"}) => (Ver = prev.ver /\ sigs = prev.sigs)
+
+\* what somebody leaves in one place of the signatures member, in whatever form, matters to that place only:
+\* every other <<name, key ID, key>> verifies exactly as before, nothing verifies in that place any more, and the
+\* key-ID lists are the old ones plus that key ID under that name
+ForeignEntryLocal ==
+    (hist # <<>> /\ Last[1] = "ForeignEntry") =>
+        /\ Ver = {t \in prev.ver : <<t[1], t[2]>> # <<Last[2], Last[3]>>}
+        /\ \A e \in Entities :
+              KeyIDsOf(sigs, e) = KeyIDsOf(prev.sigs, e) \cup (IF e = Last[2] THEN {Last[3]} ELSE {})
+        /\ obj = prev.obj
+
+ForeignEntityLocal ==
+    (hist # <<>> /\ Last[1] = "ForeignEntity") =>
+        /\ Ver = {t \in prev.ver : t[1] # Last[2]}
+        /\ \A e \in Entities : KeyIDsOf(sigs, e) = (IF e = Last[2] THEN {} ELSE KeyIDsOf(prev.sigs, e))
+        /\ obj = prev.obj
+
+\* a genuine signer is still listed and still verifies whatever the forms of the other entries are
+FormsIrrelevant ==
+    \A t \in Ver : \A x \in (DOMAIN sigs) \ {<<t[1], t[2]>>}, f \in Forms :
+        Verifies(obj, [sigs EXCEPT ![x].form = f], t[1], t[2], t[3]) /\ t[2] \in KeyIDsOf([sigs EXCEPT ![x].form = f], t[1])
 
 \* oracle sanity
 EditsKeepSignatures == (hist # <<>> /\ Last[1] \notin SignOps) => sigs = prev.sigs
@@ -226,8 +322,11 @@ TypeOK ==
     /\ Len(hist) <= MaxLen
     /\ NSigns <= MaxSigns
     /\ pres \in Presentations
-    /\ DOMAIN sigs \subseteq Entities \X KeyIDs
-    /\ \A x \in DOMAIN sigs : sigs[x].key \in Keys \cup {Junk}
+    /\ DOMAIN sigs \subseteq Entities \X (KeyIDs \cup {Whole})
+    /\ \A x \in DOMAIN sigs : sigs[x].key \in Keys \cup {Junk} /\ sigs[x].form \in Forms
+    /\ \A x \in DOMAIN sigs : IF x[2] = Whole THEN sigs[x].form \in EntityForms /\ \A y \in DOMAIN sigs : y[1] = x[1] => y = x
+                                ELSE sigs[x].form \in {B64} \cup ForeignForms
+    /\ \A x \in DOMAIN sigs : sigs[x].form # B64 => sigs[x].key = Junk
     /\ DOMAIN obj = PlainMembers \cup NestedMembers \cup {Unsigned}
     /\ \A m \in PlainMembers : obj[m] \in Vals \cup {Absent}
     /\ \A m \in NestedMembers : obj[m] \in NVals \cup {Absent}
